@@ -1,11 +1,13 @@
 /-
   `render L P` is a text the preprocessor lemma applies to (C01 stage 3, first half): for a
-  well-formed layout, `TextRel (some flag) L.trail (render L P) (progETok L.names P)` — every token
-  of the rendered program is a separator-and-token piece the lexer lemmas cover, grouped as the
-  preprocessor consumes them, and the expected parser tokens are the program's.
+  well-formed layout, `TextRel (some flag) L.trail 0 (render L P) (progETok L.names P) (progESpans L P)`
+  — every token of the rendered program is a separator-and-token piece the lexer lemmas cover, grouped
+  as the preprocessor consumes them, the expected parser tokens are the program's, and their spans are
+  where `render` put them (`Proofs/TextSpans.lean`; C17).
 -/
 import Lace.Proofs.PreRender
 import Lace.Proofs.ParseProg
+import Lace.Proofs.TextSpans
 set_option linter.unusedSimpArgs false
 namespace Lace.C01
 open Lace.Asm Lace.Spec Lace.C04
@@ -304,21 +306,23 @@ theorem drop_succ_tail {α : Type} (ls : List α) (n : Nat) : ls.drop (n + 1) = 
 
 /-- a run of operand tokens -/
 theorem textRel_opnds (flag : Bool) (names : Nat → List Char) (trail : List Char)
-    (htr : trailOk trail = true) (restToks : List Tok) (es : List ETok) :
-    ∀ (opToks : List Tok) (ops : List Opnd) (first : Bool) (ls : List TokLay),
+    (htr : trailOk trail = true) (restToks : List Tok) (es : List ETok) (sps : List Span) :
+    ∀ (opToks : List Tok) (ops : List Opnd) (first : Bool) (ls : List TokLay) (pos : Nat),
       opToks.map (Tok.opnd names) = ops.map some →
       okToks names first ls (opToks ++ restToks) = true →
-      TextRel (some flag) trail (renderToks names (ls.drop opToks.length) restToks ++ trail) es →
-      TextRel (some flag) trail (renderToks names ls (opToks ++ restToks) ++ trail) (ops.map .opnd ++ es) := by
+      TextRel (some flag) trail (endPos names pos ls opToks)
+        (renderToks names (ls.drop opToks.length) restToks ++ trail) es sps →
+      TextRel (some flag) trail pos (renderToks names ls (opToks ++ restToks) ++ trail) (ops.map .opnd ++ es)
+        (tokSpans names pos ls opToks ++ sps) := by
   intro opToks
   induction opToks with
   | nil =>
-    intro ops first ls hmap _ hrest
+    intro ops first ls pos hmap _ hrest
     cases ops with
-    | nil => simpa using hrest
+    | nil => simpa [endPos, tokSpans] using hrest
     | cons _ _ => simp at hmap
   | cons t ts ih =>
-    intro ops first ls hmap hok hrest
+    intro ops first ls pos hmap hok hrest
     cases ops with
     | nil => simp at hmap
     | cons o os =>
@@ -327,8 +331,9 @@ theorem textRel_opnds (flag : Bool) (names : Nat → List Char) (trail : List Ch
       obtain ⟨hgap, htok, hok'⟩ := okToks_cons hok
       obtain ⟨k, hlex, hne, hplain, hmatch⟩ := opnd_piece (some flag) names (ls.headD {}) t o hmap.1 htok
       rw [List.cons_append, renderToks_cons, List.append_assoc, List.append_assoc]
+      simp only [tokSpans, List.map_cons, List.cons_append]
       refine TextRel.plain ⟨hgap, hlex, isPlain_real hplain, hne, delim_render hok' htr⟩ hplain hmatch ?_
-      apply ih os false ls.tail hmap.2 hok'
+      apply ih os false ls.tail _ hmap.2 hok'
       rw [← drop_succ_tail]
       exact hrest
 
@@ -338,25 +343,28 @@ theorem flagOf_none {nzp : BitVec 3} (h : flagOf nzp = none) : nzp = 0#3 := by
 /-- **one statement** (mnemonic and operands, or a data directive with its operand) -/
 theorem textRel_stmt (flag : Bool) (names : Nat → List Char) (trail : List Char)
     (htr : trailOk trail = true) (s : SrcStmt) (hst : flag = true ∨ s.isStack = false)
-    (hren : s.renderable = true) (first : Bool) (ls : List TokLay) (restToks : List Tok) (es : List ETok)
+    (hren : s.renderable = true) (first : Bool) (ls : List TokLay) (pos : Nat) (restToks : List Tok)
+    (es : List ETok) (sps : List Span)
     (hok : okToks names first ls (s.toks ++ restToks) = true)
-    (hrest : TextRel (some flag) trail (renderToks names (ls.drop s.toks.length) restToks ++ trail) es) :
-    TextRel (some flag) trail (renderToks names ls (s.toks ++ restToks) ++ trail) (stmtETok names s ++ es) := by
+    (hrest : TextRel (some flag) trail (endPos names pos ls s.toks)
+      (renderToks names (ls.drop s.toks.length) restToks ++ trail) es sps) :
+    TextRel (some flag) trail pos (renderToks names ls (s.toks ++ restToks) ++ trail) (stmtETok names s ++ es)
+      (stmtESpans names pos ls s ++ sps) := by
   cases hs : stmtSyntax names s with
   | some p =>
     obtain ⟨hd, ops⟩ := p
     obtain ⟨name, alt, opToks, e1, k1, k2, hmap⟩ := stmt_kw flag names s hd ops hs hst
-    rw [stmtETok_syntax hs]
+    rw [stmtETok_syntax hs, stmtESpans_syntax hs]
     rw [e1, List.cons_append] at hok ⊢
+    rw [e1] at hrest
     obtain ⟨hgap, _, hok'⟩ := okToks_cons hok
     have hplain : isPlain hd.kind = true := by cases hd <;> rfl
     rw [renderToks_cons, List.append_assoc, List.append_assoc, List.cons_append]
+    simp only [tokSpans, List.cons_append]
     refine TextRel.plain (kw_piece k1 k2 (isPlain_real hplain) hgap (delim_render hok' htr)) hplain
       (by intro sp; cases hd <;> rfl) ?_
-    apply textRel_opnds flag names trail htr restToks es opToks ops false ls.tail hmap hok'
+    apply textRel_opnds flag names trail htr restToks es sps opToks ops false ls.tail _ hmap hok'
     rw [← drop_succ_tail]
-    have : s.toks.length = opToks.length + 1 := by rw [e1]; rfl
-    rw [this] at hrest
     exact hrest
   | none =>
     have two : ∀ (nm : List Char) (x : Tok), okToks names first ls (Tok.k nm :: x :: restToks) = true →
@@ -387,6 +395,7 @@ theorem textRel_stmt (flag : Bool) (names : Nat → List Char) (trail : List Cha
       rw [renderToks_cons, renderToks_cons]
       simp only [List.append_assoc]
       rw [hdrop] at hrest
+      simp only [stmtESpans, SrcStmt.toks, stmtSpanAt_two, List.cons_append, List.nil_append]
       exact TextRel.fill (dir_piece (by decide) (by decide) g1 d1) ⟨g2, hl, hkr, hne, d2⟩ hk hrest
     | blkw n =>
       simp only [SrcStmt.toks, List.cons_append, List.nil_append, List.length_cons, List.length_nil] at hok hrest ⊢
@@ -399,6 +408,7 @@ theorem textRel_stmt (flag : Bool) (names : Nat → List Char) (trail : List Cha
       rw [renderToks_cons, renderToks_cons]
       simp only [List.append_assoc]
       rw [hdrop] at hrest
+      simp only [stmtESpans, SrcStmt.toks, stmtSpanAt_two]
       exact TextRel.blkw (dir_piece (by decide) (by decide) g1 d1) ⟨g2, hl, hkr, hne, d2⟩ hk hrest
     | stringz b =>
       simp only [SrcStmt.toks, List.cons_append, List.nil_append, List.length_cons, List.length_nil] at hok hrest ⊢
@@ -407,6 +417,9 @@ theorem textRel_stmt (flag : Bool) (names : Nat → List Char) (trail : List Cha
       rw [renderToks_cons, renderToks_cons]
       simp only [List.append_assoc]
       rw [hdrop] at hrest
+      have hlen : (Spec.unescape b).length.succ = (strETok b).length := by
+        simp only [strETok, List.length_append, List.length_map, List.length_cons, List.length_nil]
+      simp only [stmtESpans, SrcStmt.toks, stmtSpanAt_two, hlen]
       exact TextRel.stringz (dir_piece (by decide) (by decide) g1 (by simpa [Tok.spell] using d1))
         ⟨g2, lexes_str (some flag) b hb, ⟨by simp, by simp⟩, by simp, d2⟩ hrest
     | br nzp l =>
@@ -442,85 +455,96 @@ def ItemOk (flag : Bool) : Item → Prop
   | _ => True
 
 theorem textRel_items (flag : Bool) (names : Nat → List Char) (trail : List Char)
-    (htr : trailOk trail = true) : ∀ (items : List Item) (first : Bool) (ls : List TokLay),
+    (htr : trailOk trail = true) : ∀ (items : List Item) (first : Bool) (ls : List TokLay) (pos : Nat),
     okToks names first ls (itemsToks items) = true → (∀ it ∈ items, ItemOk flag it) →
-    TextRel (some flag) trail (renderToks names ls (itemsToks items) ++ trail) (itemsETok names items) := by
+    TextRel (some flag) trail pos (renderToks names ls (itemsToks items) ++ trail) (itemsETok names items)
+      (itemsESpans names pos ls items) := by
   intro items
   induction items with
-  | nil => intro _ _ _ _; exact TextRel.nil
+  | nil => intro _ _ _ _ _; exact TextRel.nil
   | cons it rest ih =>
-    intro first ls hok hall
+    intro first ls pos hok hall
     have hrest : ∀ (n : Nat) (a : List Tok), a ≠ [] → a.length = n →
         okToks names first ls (a ++ itemsToks rest) = true →
-        TextRel (some flag) trail (renderToks names (ls.drop n) (itemsToks rest) ++ trail)
-          (itemsETok names rest) := by
+        TextRel (some flag) trail (endPos names pos ls a) (renderToks names (ls.drop n) (itemsToks rest) ++ trail)
+          (itemsETok names rest) (itemsESpans names (endPos names pos ls a) (ls.drop n) rest) := by
       intro n a ha hn h
       subst hn
-      exact ih false _ (okToks_drop names _ a first ls h ha)
+      exact ih false _ _ (okToks_drop names _ a first ls h ha)
         (fun x hx => hall x (List.mem_cons_of_mem _ hx))
     have hit := hall it List.mem_cons_self
-    simp only [itemsToks, itemsETok] at hok ⊢
+    simp only [itemsToks, itemsETok, itemsESpans] at hok ⊢
     cases it with
     | orig w =>
-      simp only [Item.toks, itemETok, List.cons_append, List.nil_append] at hok ⊢
+      simp only [Item.toks, itemETok, itemESpans, List.cons_append, List.nil_append] at hok ⊢
       have hr := hrest 2 [Tok.k ['.','o','r','i','g'], Tok.lit w] (by simp) rfl hok
       obtain ⟨hgap, _, hok'⟩ := okToks_cons hok
       rw [renderToks_cons, List.append_assoc, List.append_assoc]
+      simp only [tokSpans, List.cons_append, List.nil_append]
       refine TextRel.plain (dir_piece (by decide) (by decide) hgap (delim_render hok' htr)) rfl
         (fun _ => rfl) ?_
       have := textRel_opnds flag names trail htr (itemsToks rest) (itemsETok names rest)
-        [Tok.lit w] [Opnd.lit w] false ls.tail rfl hok'
+        (itemsESpans names (endPos names pos ls [Tok.k ['.','o','r','i','g'], Tok.lit w]) (ls.drop 2) rest)
+        [Tok.lit w] [Opnd.lit w] false ls.tail
+        (pos + utf8Len (ls.headD {}).sep + utf8Len ((Tok.k ['.','o','r','i','g']).spell names (ls.headD {})))
+        rfl hok'
+      simp only [tokSpans, List.cons_append, List.nil_append, List.map_cons, List.map_nil] at this
       apply this
       have e : ls.tail.drop 1 = ls.drop 2 := by rw [← drop_succ_tail]
       simp only [List.length_cons, List.length_nil]
       rw [e]
       exact hr
     | brk =>
-      simp only [Item.toks, itemETok, List.cons_append, List.nil_append] at hok ⊢
+      simp only [Item.toks, itemETok, itemESpans, List.cons_append, List.nil_append] at hok ⊢
       have hr := hrest 1 [Tok.k ['.','b','r','e','a','k']] (by simp) rfl hok
       obtain ⟨hgap, _, hok'⟩ := okToks_cons hok
       rw [renderToks_cons, List.append_assoc, List.append_assoc]
+      simp only [tokSpans, List.cons_append, List.nil_append]
       refine TextRel.brk (dir_piece (by decide) (by decide) hgap (delim_render hok' htr)) ?_
       have e : ls.drop 1 = ls.tail := by cases ls <;> rfl
-      rw [e] at hr
+      simp only [List.length_cons, List.length_nil]
+      rw [e] at hr ⊢
       exact hr
     | stmt lbl s =>
       obtain ⟨hst, hren⟩ := hit
       cases lbl with
       | none =>
-        simp only [Item.toks, itemETok] at hok ⊢
-        exact textRel_stmt flag names trail htr s hst hren first ls _ _ hok
+        simp only [Item.toks, itemETok, itemESpans] at hok ⊢
+        exact textRel_stmt flag names trail htr s hst hren first ls pos _ _ _ hok
           (hrest _ s.toks (stmt_toks_ne s) rfl hok)
       | some id =>
-        simp only [Item.toks, itemETok, List.cons_append] at hok ⊢
+        simp only [Item.toks, itemETok, itemESpans, List.cons_append] at hok ⊢
         have hr := hrest (s.toks.length + 1) (Tok.label id :: s.toks) (by simp) rfl hok
         obtain ⟨_, _, hok'⟩ := okToks_cons hok
         have := textRel_opnds flag names trail htr (s.toks ++ itemsToks rest)
-          (stmtETok names s ++ itemsETok names rest) [Tok.label id] [Opnd.label (names id)] first ls rfl hok
+          (stmtETok names s ++ itemsETok names rest)
+          (stmtESpans names (endPos names pos ls [Tok.label id]) ls.tail s ++
+            itemsESpans names (endPos names pos ls (Tok.label id :: s.toks)) (ls.drop (s.toks.length + 1)) rest)
+          [Tok.label id] [Opnd.label (names id)] first ls pos rfl hok
+        simp only [List.length_cons, List.length_nil, List.append_assoc, List.map_cons, List.map_nil,
+          List.cons_append, List.nil_append] at this ⊢
         apply this
-        simp only [List.length_cons, List.length_nil]
-        apply textRel_stmt flag names trail htr s hst hren false _ _ _
-        · have e : ls.drop (0 + 1) = ls.tail := by cases ls <;> rfl
-          rw [e]; exact hok'
-        · rw [List.drop_drop]
-          have : 0 + 1 + s.toks.length = s.toks.length + 1 := by omega
-          rw [this]
-          exact hr
+        have e : ls.drop (0 + 1) = ls.tail := by cases ls <;> rfl
+        rw [e]
+        apply textRel_stmt flag names trail htr s hst hren false _ _ _ _ _ hok'
+        rw [← drop_succ_tail]
+        exact hr
 
 theorem mem_stmts_of_item {P : Prog} {l : Option Nat} {s : SrcStmt} (h : Item.stmt l s ∈ P.items) :
     (l, s) ∈ P.stmts := by
   unfold Prog.stmts
   exact List.mem_filterMap.mpr ⟨_, h, rfl⟩
 
-/-- **`render L P` is a text the preprocessor lemma applies to.** -/
+/-- **`render L P` is a text the preprocessor lemma applies to**; the tokens' spans are where `render`
+put them. -/
 theorem textRel_render (flag : Bool) (L : Layout) (P : Prog) (hok : L.ok P = true)
     (hst : flag = true ∨ P.stmts.all (fun ls => !ls.2.isStack) = true) :
-    TextRel (some flag) L.trail (render L P) (progETok L.names P) := by
+    TextRel (some flag) L.trail 0 (render L P) (progETok L.names P) (progESpans L P) := by
   simp only [Layout.ok, Bool.and_eq_true] at hok
   obtain ⟨⟨⟨hren, htoks⟩, htr⟩, _⟩ := hok
   simp only [Prog.renderable, Bool.and_eq_true, List.all_eq_true] at hren
-  unfold render progETok Prog.toks
-  apply textRel_items flag L.names L.trail htr P.items true L.toks htoks
+  unfold render progETok progESpans Prog.toks
+  apply textRel_items flag L.names L.trail htr P.items true L.toks 0 htoks
   intro it hit
   cases it with
   | orig w => trivial
